@@ -80,6 +80,38 @@ fn render(lib: &str, s: Style) -> Vec<u8> {
             w.reset().unwrap();
             w.into_inner()
         }
+        // the COLOUR-level helpers (to_yansi_color, to_owo_colors, to_termcolor_color) are public API of their own: the colour
+        // they return, used as foreground / background of a style built with the library itself
+        "yansi_color" => {
+            use yansi::Paint;
+            let mut st = yansi::Style::new();
+            if let Some(c) = s.get_fg_color() {
+                st = st.fg(anstyle_yansi::to_yansi_color(c));
+            }
+            if let Some(c) = s.get_bg_color() {
+                st = st.bg(anstyle_yansi::to_yansi_color(c));
+            }
+            format!("{}", "X".paint(st)).into_bytes()
+        }
+        "owo_color" => {
+            use owo_colors::OwoColorize;
+            match (s.get_fg_color(), s.get_bg_color()) {
+                (Some(f), None) => format!("{}", "X".color(anstyle_owo_colors::to_owo_colors(f))).into_bytes(),
+                (None, Some(b)) => format!("{}", "X".on_color(anstyle_owo_colors::to_owo_colors(b))).into_bytes(),
+                _ => b"X".to_vec(),
+            }
+        }
+        "termcolor_color" => {
+            use termcolor::WriteColor;
+            let mut w = termcolor::Ansi::new(Vec::new());
+            let mut spec = termcolor::ColorSpec::new();
+            spec.set_fg(s.get_fg_color().map(anstyle_termcolor::to_termcolor_color));
+            spec.set_bg(s.get_bg_color().map(anstyle_termcolor::to_termcolor_color));
+            w.set_color(&spec).unwrap();
+            w.write_all(b"X").unwrap();
+            w.reset().unwrap();
+            w.into_inner()
+        }
         // termcolor is used statefully (set_color; write; set_color; write; reset): the converted spec must also mean
         // the same style when the writer has just been showing a different, effect-laden one
         "termcolor_after" => {
@@ -130,6 +162,21 @@ fn record(seed: u64, thorough: bool, shards: usize, prefix: &str) -> Value {
     let mut r = rng::Rng::new(seed);
     let cols = colours(thorough);
     for lib in ["ansi_term", "crossterm", "owo_colors", "termcolor", "yansi"] {
+        for c in &cols {
+            let helper = match lib {
+                "yansi" => Some("yansi_color"),
+                "owo_colors" => Some("owo_color"),
+                "termcolor" => Some("termcolor_color"),
+                _ => None,
+            };
+            if let Some(h) = helper {
+                for st in [Style::new().fg_color(Some(*c)), Style::new().bg_color(Some(*c))] {
+                    let ev = json!({"lib":lib,"via":h,"st":style_json(&st),"bytes":render(h, st)});
+                    writeln!(files[n % shards], "{ev}").unwrap();
+                    n += 1;
+                }
+            }
+        }
         let mut emit = |s: Style| {
             let ev = json!({"lib":lib,"st":style_json(&s),"bytes":render(lib, s)});
             writeln!(files[n % shards], "{ev}").unwrap();
@@ -180,6 +227,21 @@ fn record(seed: u64, thorough: bool, shards: usize, prefix: &str) -> Value {
                 background: col(&mut r, k / 4),
                 font_style: syntect::highlighting::FontStyle::from_bits_truncate(fs),
             };
+            // the value syntect's own Style::default() has (opaque black on opaque white, no font style) is a style like any other
+            if k == 0 && fs == 0 {
+                let d = syntect::highlighting::Style::default();
+                for st in [d, syntect::highlighting::Style { foreground: d.foreground, background: d.foreground, font_style: d.font_style }] {
+                    let a = anstyle_syntect::to_anstyle(st);
+                    let parts = anstyle::Style::new().fg_color(Some(anstyle_syntect::to_anstyle_color(st.foreground))).bg_color(Some(anstyle_syntect::to_anstyle_color(st.background)))
+                        | anstyle_syntect::to_anstyle_effects(st.font_style);
+                    for x in [a, parts] {
+                        let ev = json!({"lib":"syntect","src":{"fg":[st.foreground.r, st.foreground.g, st.foreground.b, st.foreground.a],
+                            "bg":[st.background.r, st.background.g, st.background.b, st.background.a],"bold":false,"italic":false,"underline":false},"st":style_json(&x),"bytes":[]});
+                        writeln!(files[n % shards], "{ev}").unwrap();
+                        n += 1;
+                    }
+                }
+            }
             // the style, then three neighbours on the same thread that differ in ONE field each (background, foreground, font):
             // nothing remembered from the previous conversion may be served for a different input
             let mut variants = vec![st];
